@@ -106,7 +106,20 @@ func main() {
 		if seen[p.PkgPath] != nil {
 			return
 		}
-		if p.Module == nil || p.Module.Path != modPath || !p.Module.Main {
+		if p.Module == nil {
+			return
+		}
+		// the main module, plus modules replaced by a directory inside the
+		// scratch tree (the writable copy of openacid/low): yields there let the
+		// step caps reach loops in the dependency that a corrupted or
+		// half-loaded trie would otherwise spin in forever.
+		inScope := p.Module.Main && p.Module.Path == modPath
+		if r := p.Module.Replace; r != nil && r.Dir != "" {
+			if rel, err := filepath.Rel(root, r.Dir); err == nil && !strings.HasPrefix(rel, "..") {
+				inScope = true
+			}
+		}
+		if !inScope {
 			return
 		}
 		if p.PkgPath == rtPath {
